@@ -90,7 +90,17 @@ static void do_schema_file(hctx* h, const el_t* e, int n) {
         if (s->num_leaves == 0) fputc('-', h->out);
         for (int i = 0; i < s->num_leaves; i++)
             fprintf(h->out, "%s%d.%d.%d", i ? "," : "", s->leaf_indices[i], s->max_def_levels[i], s->max_rep_levels[i]);
-        fputc('\n', h->out);
+        /* what the file states comes back through the element accessors: every name byte for byte (names are UTF-8 strings
+         * of any length), and the type length of every leaf (an i32: 65536 and more are legal) */
+        int kept = carquet_schema_num_elements(s) == n;
+        for (int i = 0; kept && i < n; i++) {
+            const carquet_schema_node_t* nd = carquet_schema_get_element(s, i);
+            const char* nm = nd ? carquet_schema_node_name(nd) : NULL;
+            if (!nm || strcmp(nm, e[i].name) != 0) kept = 0;
+            else if (e[i].ptype >= 0 && (!carquet_schema_node_is_leaf(nd) || (int)carquet_schema_node_physical_type(nd) != e[i].ptype)) kept = 0;
+            else if (e[i].ptype == 7 && carquet_schema_node_type_length(nd) != e[i].tlen) kept = 0;
+        }
+        fprintf(h->out, " p_names_types_kept=%d\n", kept);
     }
     if (rd) carquet_reader_close(rd);
     h->n_lines++; carquet_buffer_destroy(&fb); free(file); free_c(c, n);
@@ -260,6 +270,13 @@ static void gen_schema(hctx* h) {
         do_build(h, q, nn, NULL); do_schema_file(h, q, nn); wf++;
         free(q);
     }
+    { static const int tls[] = { 65535, 65536, 65552, 100000, 1 << 20 };
+      el_t q[8]; int nn = 0;
+      snprintf(q[nn].name, sizeof q[nn].name, "schema"); q[nn].rep = -1; q[nn].ptype = -1; q[nn].tlen = 0; q[nn].nchild = 7; nn++;
+      for (int i = 0; i < 5; i++) { snprintf(q[nn].name, sizeof q[nn].name, "f%d", tls[i]); q[nn].rep = i % 3; q[nn].ptype = 7; q[nn].tlen = tls[i]; q[nn].nchild = 0; nn++; }
+      snprintf(q[nn].name, sizeof q[nn].name, "temp\xc3\xa9rature_c"); q[nn].rep = 1; q[nn].ptype = 5; q[nn].tlen = 0; q[nn].nchild = 0; nn++;
+      snprintf(q[nn].name, sizeof q[nn].name, "pr\xc3\xa9nom_\xe2\x82\xac_total"); q[nn].rep = 0; q[nn].ptype = 6; q[nn].tlen = 0; q[nn].nchild = 0; nn++;
+      do_build(h, q, nn, NULL); do_schema_file(h, q, nn); wf++; }
     /* root only / empty */
     { int n = 1; snprintf(e[0].name, sizeof e[0].name, "schema"); e[0].rep = -1; e[0].ptype = -1; e[0].tlen = 0; e[0].nchild = 0; do_build(h, e, n, NULL); do_build(h, e, 0, NULL); }
 
